@@ -47,6 +47,7 @@ func init() {
 	register("shutdown", "C19: termination-signal timeline of the built binary with a slow upstream: accepted / completed / cut requests, exit time and status", runShutdown)
 }
 
+// a request: arrival a, service time d (both planned)
 type sdReq struct{ a, d time.Duration }
 
 // a further signal, [at] after the first one
@@ -62,9 +63,27 @@ type sdScenario struct {
 	first syscall.Signal // the signal that starts the shutdown (0 = SIGTERM)
 	sigs  []sdSig        // further signals, in order of their instants
 	sync  []bool         // per request (may be shorter than reqs): completion synchronised to the process's close instant
+	kinds []int          // per request (may be shorter than reqs): what kind of request it is (shutdownidp.go: sdKind*; absent = 0 = a proxied request to the slow upstream)
 }
 
 func (sc sdScenario) synced(i int) bool { return i < len(sc.sync) && sc.sync[i] }
+
+// backChannel: the scenario has requests that need the complete fake OpenID provider (shutdownidp.go)
+func (sc sdScenario) backChannel() bool {
+	for i := range sc.reqs {
+		if sc.kind(i) != sdKindProxy {
+			return true
+		}
+	}
+	return false
+}
+
+func (sc sdScenario) kind(i int) int {
+	if i < len(sc.kinds) {
+		return sc.kinds[i]
+	}
+	return sdKindProxy
+}
 
 func (sc sdScenario) firstSignal() syscall.Signal {
 	if sc.first == 0 {
@@ -93,9 +112,10 @@ func sdSigName(k syscall.Signal) string {
 }
 
 type sdReqObs struct {
-	outcome    string // ok | refused | cut
+	outcome    string // ok | refused | cut | bad (answered, but not with what the request kind is answered with when it is served)
 	start, end time.Duration
 	detail     string
+	status     int // HTTP status of the measured request (0: no response)
 }
 
 type sdObs struct {
@@ -107,6 +127,7 @@ type sdObs struct {
 	reqs     []sdReqObs
 	sigs     []string        // the signals as sent: kind@actual offset (and whether the process was still there)
 	syncNote string          // how the synchronised completions were released
+	idpNote  string          // what the scenario's own OpenID provider saw
 	sigAt    []time.Duration // actual instants of the signals, relative to the planned instant of the first
 	err      string
 	log      string
@@ -191,6 +212,16 @@ func sdStartUpstream() (*http.Server, string, error) {
 
 func sdRunScenario(bin, cwd, wk, upstream string, sc sdScenario) sdObs {
 	var obs sdObs
+	var idp *sdIDP
+	if sc.backChannel() {
+		p, err := sdStartIDP()
+		if err != nil {
+			obs.err = err.Error()
+			return obs
+		}
+		defer p.srv.Close()
+		idp, wk = p, p.wellKnown()
+	}
 	ports, err := wwFreePorts(2)
 	if err != nil {
 		obs.err = err.Error()
@@ -235,11 +266,46 @@ func sdRunScenario(bin, cwd, wk, upstream string, sc sdScenario) sdObs {
 		obs.err = "did not listen within 10 s"
 		return obs
 	}
-	// the signal instant: far enough ahead for the earliest request
+	// preparation, long before the signal: the users of the refresh / logout requests log in (complete logins through the
+	// binary), and the provider is told how long the grant each measured request waits for will take
+	browsers := make([]*sdBrowser, len(sc.reqs))
+	{
+		var pw sync.WaitGroup
+		perr := make([]error, len(sc.reqs))
+		for i := range sc.reqs {
+			if sc.kind(i) == sdKindProxy {
+				continue
+			}
+			browsers[i] = newSdBrowser(fmt.Sprintf("u%d", i), bind, idp)
+			if sdKindNeedsSession(sc.kind(i)) {
+				pw.Add(1)
+				go func(i int) { defer pw.Done(); perr[i] = browsers[i].fullLogin() }(i)
+			}
+		}
+		pw.Wait()
+		for i, q := range sc.reqs {
+			if perr[i] != nil {
+				kill()
+				obs.err = fmt.Sprintf("preparation: login of the user of request %d failed: %v ; log: %s", i, perr[i], scTail(buf.String()))
+				return obs
+			}
+			switch sc.kind(i) {
+			case sdKindLogin, sdKindLoginRot:
+				idp.setDelay(fmt.Sprintf("code:u%d", i), q.d)
+			case sdKindRefresh:
+				idp.setDelay(fmt.Sprintf("refresh:u%d", i), q.d)
+			}
+		}
+	}
+	// the signal instant: far enough ahead for the earliest request (a session can be refreshed half a second after its creation)
 	lead := 300 * time.Millisecond
-	for _, q := range sc.reqs {
-		if -q.a+300*time.Millisecond > lead {
-			lead = -q.a + 300*time.Millisecond
+	for i, q := range sc.reqs {
+		need := -q.a + 300*time.Millisecond
+		if sc.kind(i) == sdKindRefresh {
+			need = -q.a + 800*time.Millisecond
+		}
+		if need > lead {
+			lead = need
 		}
 	}
 	S := time.Now().Add(lead)
@@ -250,6 +316,11 @@ func sdRunScenario(bin, cwd, wk, upstream string, sc sdScenario) sdObs {
 		go func(i int, q sdReq) {
 			defer wg.Done()
 			time.Sleep(time.Until(S.Add(q.a)))
+			if sc.kind(i) != sdKindProxy {
+				o := sdBackChannelRequest(browsers[i], idp, sc.kind(i), S)
+				obs.reqs[i] = o
+				return
+			}
 			tr := &http.Transport{DisableKeepAlives: true}
 			cl := &http.Client{Transport: tr, Timeout: 60 * time.Second}
 			o := sdReqObs{start: time.Since(S)}
@@ -269,6 +340,7 @@ func sdRunScenario(bin, cwd, wk, upstream string, sc sdScenario) sdObs {
 			} else {
 				body, rerr := io.ReadAll(resp.Body)
 				resp.Body.Close()
+				o.status = resp.StatusCode
 				if rerr == nil && resp.StatusCode == 200 && string(body) == "done" {
 					o.outcome = "ok"
 				} else {
@@ -346,7 +418,76 @@ func sdRunScenario(bin, cwd, wk, upstream string, sc sdScenario) sdObs {
 	<-sigDone
 	<-relDone
 	obs.log = scTail(buf.String())
+	if idp != nil {
+		idp.mu.Lock()
+		obs.idpNote = fmt.Sprintf("provider: %d JWKS fetches, %d token requests%s", idp.jwksHits, idp.tokenHits, sdIf(len(idp.log) > 0, "; "+strings.Join(idp.log, "; ")))
+		idp.mu.Unlock()
+	}
 	return obs
+}
+
+func sdIsRefused(err error) bool {
+	var se syscall.Errno
+	return errors.As(err, &se) && se == syscall.ECONNREFUSED || strings.Contains(err.Error(), "connection refused")
+}
+
+// sdBackChannelRequest performs one request of a kind other than proxy at its planned instant (the caller has slept until
+// then): the steps that lead up to the measured request, then the measured request itself.
+func sdBackChannelRequest(b *sdBrowser, idp *sdIDP, kind int, S time.Time) sdReqObs {
+	o := sdReqObs{start: time.Since(S)}
+	finish := func(outcome, detail string) sdReqObs {
+		o.outcome, o.detail, o.end = outcome, sdKindNames[kind]+": "+detail, time.Since(S)
+		return o
+	}
+	var r *sdResp
+	var err error
+	switch kind {
+	case sdKindLogin, sdKindLoginRot:
+		if kind == sdKindLoginRot {
+			idp.rotate()
+		}
+		cb, first, e := b.loginUpToCallback()
+		if e != nil {
+			if first && sdIsRefused(e) {
+				return finish("refused", e.Error())
+			}
+			return finish("cut", "before the callback: "+e.Error())
+		}
+		r, err = b.do("GET", cb)
+	case sdKindRefresh:
+		r, err = b.do("POST", b.ww("/oauth2/session/refresh"))
+	case sdKindLogout:
+		r, err = b.do("GET", b.ww("/oauth2/logout"))
+	}
+	if err != nil {
+		if sdIsRefused(err) && kind != sdKindLogin && kind != sdKindLoginRot {
+			return finish("refused", err.Error())
+		}
+		return finish("cut", err.Error())
+	}
+	o.status = r.status
+	served := false
+	switch kind {
+	case sdKindLogin:
+		served = r.status == 302 && b.hasSession()
+	case sdKindLoginRot:
+		// the current code answers the first callback after a key rotation with its automatic retry (307 to /oauth2/login, the
+		// JWKS having been refreshed); an implementation that re-verifies at once would answer 302 with the session
+		served = (r.status == 302 && b.hasSession()) || (r.status == 307 && strings.Contains(r.location, "/oauth2/login"))
+	case sdKindRefresh:
+		served = r.status == 200 && strings.Contains(r.body, "\"session\"")
+	case sdKindLogout:
+		served = r.status == 302 && strings.HasPrefix(r.location, idp.base+"/endsession")
+	}
+	loc := r.location
+	if i := strings.IndexByte(loc, '?'); i >= 0 && len(loc) > i+40 {
+		loc = loc[:i+40] + "..."
+	}
+	detail := fmt.Sprintf("status=%d Location=%q", r.status, loc)
+	if served {
+		return finish("ok", detail)
+	}
+	return finish("bad", detail+" body="+sdShort(r.body))
 }
 
 func sdScenarios(rng *mrand.Rand, tier string) []sdScenario {
@@ -398,6 +539,7 @@ func sdScenarios(rng *mrand.Rand, tier string) []sdScenario {
 		out = append(out, sdScenario{name: fmt.Sprintf("W=%s G=%s idle", W, G), W: W, G: G, reqs: []sdReq{{after, 100 * ms}}})
 	}
 	out = append(out, sdSignalScenarios()...)
+	out = append(out, sdBackChannelScenarios()...)
 	if tier == "thorough" {
 		for k := 0; k < 96; k++ {
 			c := cfgs[rng.Intn(len(cfgs))]
@@ -432,11 +574,37 @@ func sdScenarios(rng *mrand.Rand, tier string) []sdScenario {
 				}
 				// keep the request only if no outcome of the scenario then hinges on two instants that are too close
 				// (same rule as Model/Shutdown.v:sd_robust, which judges the scenario in the comparison); else draw again
+				// what kind of request: half of them proxied, the others wonderwall's own back-channel work (a logout has no
+				// back-channel part: service time 1 ms)
+				kind := sdKindProxy
+				if rng.Intn(2) == 0 {
+					kind = 1 + rng.Intn(sdNumKinds-1)
+				}
+				if kind == sdKindLogout {
+					fin = a + 1*ms
+				}
 				if !sdRobust(sc.W, sc.G, append(append([]sdReq(nil), sc.reqs...), sdReq{a, fin - a}), nil) {
 					j--
 					continue
 				}
 				sc.reqs = append(sc.reqs, sdReq{a, fin - a})
+				sc.kinds = append(sc.kinds, kind)
+			}
+			// once the provider rotates its key in a scenario, every login of the scenario may meet the new key
+			for _, k := range sc.kinds {
+				if k == sdKindLoginRot {
+					for i := range sc.kinds {
+						if sc.kinds[i] == sdKindLogin {
+							sc.kinds[i] = sdKindLoginRot
+						}
+					}
+					break
+				}
+			}
+			for i, k := range sc.kinds {
+				if k != sdKindProxy {
+					sc.name += fmt.Sprintf(" [%d:%s]", i, sdKindNames[k])
+				}
 			}
 			// further termination signals at random instants (at least 150 ms after the first one)
 			if rng.Intn(2) == 0 {
@@ -528,6 +696,78 @@ func sdSignalScenarios() []sdScenario {
 	// (status -9, request in flight cut, later connection refused). The monitor makes no claim about this scenario.
 	out = append(out, sdScenario{name: "control: W=1s G=3s SIGKILL at 400ms; in-flight request finishing at 2.3s", W: 1000 * ms, G: 3000 * ms,
 		sigs: []sdSig{{400 * ms, syscall.SIGKILL}}, reqs: []sdReq{{-250 * ms, 2550 * ms}, {700 * ms, 200 * ms}}})
+	return out
+}
+
+// sdBackChannelScenarios: requests that make the binary do its own back-channel work (token endpoint, JWKS) while it shuts
+// down: complete logins, a session refresh and a logout, started before the signal (in flight when it arrives), during the
+// wait-before period and after the listener has closed; without a key rotation at the provider, with a rotation BEFORE the
+// signal, and with a rotation DURING the wait-before period (the login callback then has to refresh the JWKS before it can
+// answer). The service time of a request is the time the provider's token endpoint takes for the grant that request waits
+// for. Every planned instant keeps the margins of Model/Shutdown.v:sd_robust (checked by the model in the comparison).
+func sdBackChannelScenarios() []sdScenario {
+	ms := time.Millisecond
+	var out []sdScenario
+	type rq struct {
+		a, d time.Duration
+		kind int
+	}
+	mk := func(name string, W, G time.Duration, rs []rq) {
+		sc := sdScenario{name: name, W: W, G: G}
+		var parts []string
+		for _, r := range rs {
+			sc.reqs = append(sc.reqs, sdReq{r.a, r.d})
+			sc.kinds = append(sc.kinds, r.kind)
+			parts = append(parts, fmt.Sprintf("%s at %s for %s", sdKindNames[r.kind], r.a, r.d))
+		}
+		sc.name += ": " + strings.Join(parts, ", ")
+		out = append(out, sc)
+	}
+	// variant 0: no rotation; 1: the login in flight at the signal follows a rotation (before the signal), and so does the one in
+	// the wait-before period; 2: only the login started during the wait-before period follows a rotation
+	for v := 0; v < 3; v++ {
+		what := []string{"no key rotation", "provider rotates its key before the signal and again in the wait-before period", "provider rotates its key in the wait-before period"}[v]
+		early, inWait := sdKindLogin, sdKindLogin
+		if v >= 1 {
+			inWait = sdKindLoginRot
+		}
+		if v == 1 {
+			early = sdKindLoginRot
+		}
+		// close at 1 s, deadline 3 s; polls at 1.51-1.56, 2.01-2.11, 2.51-2.66 s
+		mk(fmt.Sprintf("back-channel W=1s G=3s, %s", what), 1000*ms, 3000*ms, []rq{
+			{-250 * ms, 2550 * ms, early},        // in flight at the signal, through the whole wait-before period, answered in the drain at 2.3 s
+			{300 * ms, 400 * ms, inWait},         // started and answered in the wait-before period
+			{450 * ms, 1400 * ms, sdKindRefresh}, // accepted in the wait-before period, answered in the drain at 1.85 s
+			{600 * ms, 1 * ms, sdKindLogout},
+			{700 * ms, 200 * ms, sdKindProxy},
+			{1350 * ms, 100 * ms, sdKindLogin}, // after the listener has closed
+			{1400 * ms, 1 * ms, sdKindLogout},
+		})
+		// close at 0.5 s, deadline 2 s; polls at 1.01-1.06, 1.51-1.61 s
+		mk(fmt.Sprintf("back-channel W=500ms G=2s, %s", what), 500*ms, 2000*ms, []rq{
+			{-250 * ms, 1550 * ms, early}, // answered in the drain at 1.3 s
+			{100 * ms, 200 * ms, inWait},
+			{200 * ms, 900 * ms, sdKindRefresh}, // answered in the drain at 1.1 s
+			{300 * ms, 1 * ms, sdKindLogout},
+			{850 * ms, 100 * ms, sdKindRefresh}, // after the listener has closed
+		})
+		if v == 2 {
+			continue // no wait-before period below
+		}
+		// close at 0, deadline 2 s; polls at 0.51-0.56, 1.01-1.11, 1.51-1.66 s
+		mk(fmt.Sprintf("back-channel W=0s G=2s, %s", []string{"no key rotation", "provider rotates its key before the signal"}[v]), 0, 2000*ms, []rq{
+			{-300 * ms, 1100 * ms, early},         // in flight at the signal, answered in the drain at 0.8 s
+			{-200 * ms, 1050 * ms, sdKindRefresh}, // answered in the drain at 0.85 s
+			{-200 * ms, 1 * ms, sdKindLogout},
+			{350 * ms, 100 * ms, sdKindLogin},
+		})
+	}
+	// a login whose token exchange cannot complete within the graceful period: cut at the deadline, status 1
+	mk("back-channel W=500ms G=2s, token endpoint slower than the graceful period", 500*ms, 2000*ms, []rq{
+		{100 * ms, 2900 * ms, sdKindLogin},
+		{250 * ms, 300 * ms, sdKindRefresh},
+	})
 	return out
 }
 
@@ -716,6 +956,10 @@ func runShutdown(args []string) error {
 		for i := range sc.reqs {
 			in = append(in, scB01(sc.synced(i)))
 		}
+		in = append(in, "|")
+		for i := range sc.reqs {
+			in = append(in, strconv.Itoa(sc.kind(i)))
+		}
 		fmt.Fprintln(fin, strings.Join(in, " "))
 		if o.refused {
 			fmt.Fprintf(fimpl, "R %d\n", o.refClass)
@@ -742,12 +986,16 @@ func runShutdown(args []string) error {
 		for _, t := range o.sigAt {
 			im = append(im, strconv.FormatInt(int64(t), 10))
 		}
+		im = append(im, "|")
+		for _, r := range o.reqs {
+			im = append(im, strconv.Itoa(r.status))
+		}
 		fmt.Fprintln(fimpl, strings.Join(im, " "))
 		var ds []string
 		for _, r := range o.reqs {
 			ds = append(ds, fmt.Sprintf("%s@%dms..%dms %s", r.outcome, r.start.Milliseconds(), r.end.Milliseconds(), r.detail))
 		}
-		fmt.Fprintf(fnotes, "%s\t%s ; signals sent: %s\t%s\n", sc.name, strings.Join(ds, " ; "), strings.Join(o.sigs, " ")+sdIf(o.syncNote != "", " ; "+o.syncNote), strings.ReplaceAll(o.err, "\n", " "))
+		fmt.Fprintf(fnotes, "%s\t%s ; signals sent: %s\t%s\n", sc.name, strings.Join(ds, " ; "), strings.Join(o.sigs, " ")+sdIf(o.syncNote != "", " ; "+o.syncNote)+sdIf(o.idpNote != "", " ; "+o.idpNote), strings.ReplaceAll(o.err, "\n", " "))
 	}
 	fmt.Fprintf(os.Stderr, "shutdown: %d scenarios in %.1fs\n", len(scs), time.Since(t0).Seconds())
 	return nil
